@@ -26,6 +26,7 @@ import (
 	"strconv"
 	"strings"
 	"syscall"
+	"time"
 
 	"github.com/google/pprof/internal/plugin"
 	"github.com/google/pprof/internal/verifsim/simos"
@@ -863,7 +864,11 @@ func c19Faults(x *xctx) *violation {
 	x.stats["io_calls_of_op"] += int64(len(log))
 	probeOp := c19op{Kind: "save", Name: "probe", Params: map[string]string{"f": "probe"}}
 
-	for _, pl := range plans {
+	for pi, pl := range plans {
+		if pi%32 == 31 && pastWorkerDeadline(45*time.Second) {
+			x.probe("crash_point_enumeration_cut_at_worker_deadline")
+			break
+		}
 		// A fresh process over the pre-state disk runs only the operation, with exactly one fault.
 		simrt.ReinitAll()
 		simos.RestoreSnapshot(snap)
